@@ -59,7 +59,8 @@ var entries = []struct {
 }
 
 func expectFor(in string, policy int) (accept bool, sv oracle.Semver, tag bool) {
-	if len(in) == 0 || len(in) > 1024 {
+	// the length limit in force in the default configuration is the library's own (the statement does not mention it)
+	if lim := libdefaults.SemMaxInputLength; len(in) == 0 || lim != 0 && len(in) > lim {
 		return false, sv, false
 	}
 	body := in
@@ -428,9 +429,13 @@ func main() {
 				reset()
 			})
 		}
-		r.Phase("length limit: texts of length 1020..1030 (valid shape) ", "complete grid", func() {
+		L0 := libdefaults.SemMaxInputLength
+		if L0 < 16 {
+			L0 = 1024
+		}
+		r.Phase(fmt.Sprintf("length limit in force by default (%d): texts of length %d..%d (valid shape) ", libdefaults.SemMaxInputLength, L0-6, L0+6), "complete grid", func() {
 			r.Serial(func(w *mc.W) {
-				for l := 1018; l <= 1030; l++ {
+				for l := L0 - 6; l <= L0+6; l++ {
 					one(w, []byte("1.0.0-"+strings.Repeat("a", l-6)))
 					one(w, []byte("v1.0.0+"+strings.Repeat("0", l-7)))
 				}
